@@ -36,7 +36,7 @@ def strip_comments(s):
 
 def func_body(src, name, fname):
     m = re.search(r"\n" + re.escape(name) + r"\s*\(", src) or \
-        re.search(r"\nDLLEXPORT\s+[\w \*]*?\b" + re.escape(name) + r"\s*\(", src)
+        re.search(r"\n(?:DLLEXPORT|static)\s+[\w \*]*?\b" + re.escape(name) + r"\s*\(", src)
     if not m:
         die("%s: function %s not found" % (fname, name))
     i = src.find("{", m.end())
@@ -283,6 +283,37 @@ cond = " ".join(mx.group(1).split())
 tj_icc_uncond = 1 if cond == "this->iccBuf != NULL && this->iccSize != 0" else 0
 if not tj_icc_uncond and "saveMarkers" not in cond and "COPYNONE" not in cond:
     die("turbojpeg.c: tj3Transform ICC condition not understood: " + cond)
+# turbojpeg.h: iMCU sizes per subsampling level and the TJSAMP enumerators (getSubsamp / setCompDefaults)
+tjh = rd("turbojpeg.h")
+mw = re.search(r"tjMCUWidth\[TJ_NUMSAMP\]\s*=\s*\{([^}]*)\}", tjh)
+mh_ = re.search(r"tjMCUHeight\[TJ_NUMSAMP\]\s*=\s*\{([^}]*)\}", tjh)
+if not mw or not mh_:
+    die("turbojpeg.h: tjMCUWidth / tjMCUHeight not found")
+mcuw = [int(x) for x in re.findall(r"\d+", mw.group(1))]
+mcuh = [int(x) for x in re.findall(r"\d+", mh_.group(1))]
+msamp = re.search(r"enum\s+TJSAMP\s*\{(.*?)\}\s*;", tjh, re.S)
+if not msamp:
+    die("turbojpeg.h: enum TJSAMP not found")
+samps = re.findall(r"\b(TJSAMP_[A-Z0-9]+)\b(?:\s*=\s*(-?\d+))?\s*(?:,|$)", strip_comments(msamp.group(1)))
+sampv, cur = {}, 0
+for name, val in samps:
+    if val:
+        cur = int(val)
+    sampv[name] = cur
+    cur += 1
+for k in ("TJSAMP_444", "TJSAMP_422", "TJSAMP_420", "TJSAMP_GRAY", "TJSAMP_440", "TJSAMP_411", "TJSAMP_441"):
+    if k not in sampv:
+        die("turbojpeg.h: %s missing" % k)
+if len(mcuw) != len(mcuh) or len(mcuw) != 1 + max(v for k, v in sampv.items() if v >= 0):
+    die("turbojpeg.h: tjMCUWidth/Height do not have one entry per TJSAMP level")
+dmax = define(jpeglib, "D_MAX_BLOCKS_IN_MCU", "jpeglib.h")
+gs = func_body(tj, "getSubsamp", "turbojpeg.c")
+for pat, what in [(r"num_components\s*==\s*1\s*&&\s*dinfo->jpeg_color_space\s*==\s*JCS_GRAYSCALE\s*\)\s*return\s+TJSAMP_GRAY", "grayscale special case"),
+                  (r"if\s*\(\s*i\s*==\s*TJSAMP_GRAY\s*\)\s*continue", "skip of TJSAMP_GRAY"),
+                  (r"i\s*==\s*TJSAMP_422\s*\|\|\s*i\s*==\s*TJSAMP_440", "non-standard 4:2:2 / 4:4:0 case"),
+                  (r"D_MAX_BLOCKS_IN_MCU\s*/\s*3\s*&&\s*i\s*==\s*TJSAMP_444", "non-standard 4:4:4 case")]:
+    if not re.search(pat, gs):
+        die("turbojpeg.c: getSubsamp: %s is gone" % what)
 
 
 def zl(xs):
@@ -318,6 +349,10 @@ for i, k in enumerate(copyopts):
     P("Definition %s : Z := %d." % (k, i))
 P("Definition COPY_SAVE_LIMIT : Z := %d." % copy_limit)
 P("Definition TJ_SAVEMARKERS_MIN : Z := %s.\nDefinition TJ_SAVEMARKERS_MAX : Z := %s.\nDefinition TJ_ICC_SAVE_LIMIT : Z := %d." % (mt.group(1), mt.group(2), cint(mt2.group(1))))
+P("Definition tj_mcu_width : list Z := %s.\nDefinition tj_mcu_height : list Z := %s." % (zl(mcuw), zl(mcuh)))
+for k in ("TJSAMP_444", "TJSAMP_422", "TJSAMP_420", "TJSAMP_GRAY", "TJSAMP_440", "TJSAMP_411", "TJSAMP_441", "TJSAMP_UNKNOWN"):
+    P("Definition %s : Z := %d." % (k, sampv.get(k, -1)))
+P("Definition TJ_NUMSAMP : Z := %d.\nDefinition D_MAX_BLOCKS_IN_MCU : Z := %d." % (len(mcuw), dmax))
 P("(* 1: tj3Transform writes the profile set by tj3SetICCProfile after the copied markers whatever the copy option is *)")
 P("Definition TJ_TRANSFORM_ICC_UNCONDITIONAL : Z := %d." % tj_icc_uncond)
 print("\n".join(out))
